@@ -269,27 +269,37 @@ func init() {
 		}
 		return err
 	})
-	reg("(*os/exec.ExitError).ExitCode", func(m *Machine, fn *ssa.Function, a []Value) Value {
-		e := a[0].(*Ext)
+	psCode := func(m *Machine, v Value) Value {
+		var e *Ext
+		switch x := v.(type) {
+		case *Ext:
+			e = x
+		case *Value:
+			e = (*x).(Struct)[0].(*Ext)
+		}
 		switch c := e.F["code"].(type) {
 		case int64:
+			if c == 255 {
+				return int64(-1)
+			}
 			return c
 		case *sym.Term:
 			cc := m.C
 			return cc.Ite(cc.Eq(c, cc.BV(8, 255)), cc.BV(32, 0xffffffff), cc.Zext(c, 32))
 		}
 		return int64(1)
-	})
+	}
+	for _, recv := range []string{"(*os/exec.ExitError)", "(*os.ProcessState)"} {
+		reg(recv+".ExitCode", func(m *Machine, fn *ssa.Function, a []Value) Value { return psCode(m, a[0]) })
+		reg(recv+".Success", func(m *Machine, fn *ssa.Function, a []Value) Value {
+			return m.eqValue(psCode(m, a[0]), int64(0))
+		})
+		reg(recv+".Exited", func(m *Machine, fn *ssa.Function, a []Value) Value {
+			return m.notV(m.eqValue(psCode(m, a[0]), int64(-1)))
+		})
+		reg(recv+".String", func(m *Machine, fn *ssa.Function, a []Value) Value { return "exit status (non-zero)" })
+	}
 	reg("(*os/exec.ExitError).Error", func(m *Machine, fn *ssa.Function, a []Value) Value { return "exit status (non-zero)" })
-	reg("(*os/exec.ExitError).Success", func(m *Machine, fn *ssa.Function, a []Value) Value { return false })
-	reg("(*os/exec.ExitError).Exited", func(m *Machine, fn *ssa.Function, a []Value) Value {
-		e := a[0].(*Ext)
-		switch c := e.F["code"].(type) {
-		case *sym.Term:
-			return m.normBool(m.C.Not(m.C.Eq(c, m.C.BV(8, 255))))
-		}
-		return true
-	})
 	reg("errors.As", func(m *Machine, fn *ssa.Function, a []Value) Value {
 		err, _ := a[0].(Iface)
 		tgt, _ := a[1].(Iface)
@@ -300,12 +310,10 @@ func init() {
 		if !ok {
 			m.unsupported("errors.As target %T", tgt.V)
 		}
-		if e, ok := err.V.(*Ext); ok && e.Kind == "exiterror" {
-			if pt, ok := tgt.T.Underlying().(*types.Pointer); ok {
-				if types.Identical(pt.Elem(), m.extType("exiterror")) {
-					*p = e
-					return true
-				}
+		if pt, ok := tgt.T.Underlying().(*types.Pointer); ok {
+			if types.Identical(pt.Elem(), err.T) {
+				*p = err.V
+				return true
 			}
 		}
 		return false
